@@ -28,7 +28,7 @@ from plinio.cost import CostSpec, CostFn, params_bit
 from plinio.graph.inspection import shapes_dict
 from .graph import convert, mps_layer_map
 from .nn.module import MPSModule
-from .nn.qtz import MPSType
+from .nn.qtz import MPSType, MPSBaseQtz
 
 from .quant.quantizers import PACTAct, MinMaxWeight, QuantizerBias
 
@@ -234,9 +234,16 @@ class MPS(DNAS):
         """
         # tracing forces `eval()` on the inner model: restore its training status afterwards
         modes = [(m, m.training) for m in self.seed.modules()]
-        mod, _, _ = convert(self.seed, self._input_example, 'export')
-        for m, mode in modes:
-            m.training = mode
+        # ...and runs an eval-mode forward pass, which re-samples the selection coefficients:
+        # keep the ones sampled by the last forward pass of the search
+        thetas = [(m, m.theta_alpha) for m in self.seed.modules() if isinstance(m, MPSBaseQtz)]
+        try:
+            mod, _, _ = convert(self.seed, self._input_example, 'export')
+        finally:
+            for m, mode in modes:
+                m.training = mode
+            for m, theta in thetas:
+                m.theta_alpha = theta
         return mod
 
     def summary(self) -> Dict[str, Dict[str, Any]]:
